@@ -139,7 +139,7 @@ def _run_all(tasks, btasks, jobs, tasks_per_worker=8):
             c = core.REGISTRY[task[0]]
             # the in-path deadline fires first when Python code is running; the hard limit catches a
             # worker that is stuck inside a C call (a solver, a huge integer operation)
-            return int(c.__class__.__dict__.get("deadline_s", 900) * 1.25) + 120
+            return int(getattr(c, "deadline_s", 900) * 1.25) + 120
         return 4 * 3600
 
     def lost(kind, task, why):
@@ -209,7 +209,7 @@ def _work(task):
     c = core.REGISTRY[key]
     t0 = time.time()
     try:
-        obs, info = core.verify(c, variant, deadline_s=c.__class__.__dict__.get("deadline_s", 900))
+        obs, info = core.verify(c, variant, deadline_s=getattr(c, "deadline_s", 900))
         out = []
         for o in obs:
             j = o.to_json()
